@@ -21,6 +21,8 @@ INVARIANTS RoundTrip FilterTransparent Emit
 CHECK_DEADLOCK FALSE
 """
 FILTERS = [[], [1], [2], [3], [1, 2], [7], [2, 3], [4, 1]]
+# lists that name a type more than once (the command line flag appends to the file's list)
+FILTERS_DUP = [[2, 2], [1, 1], [2, 7, 2], [1, 2, 1], [7, 7]]
 
 
 def gen_cfg(**kw):
